@@ -42,6 +42,11 @@ def make_obj(rng, ndim, chunked, dataset, kind="coord1d"):
         gdim = gd[0]
     else:
         labs = np.array([rng.randrange(nlab) for _ in range(sizes[gdim])])
+        if kind != "two" and rng.random() < 0.2:
+            # datetime64 labels, some of them missing (NaT): a missing label is no group
+            labs = np.array(["2001-01-01", "2002-03-04", "1999-12-31"], dtype="datetime64[ns]")[labs]
+            if sizes[gdim] > 1 and rng.random() < 0.7:
+                labs[rng.randrange(sizes[gdim])] = np.datetime64("NaT")
         groupers.append(("lab", (gdim,), labs, kind == "external1d"))
         if kind == "two":
             d2 = rng.choice(names)
@@ -326,6 +331,11 @@ def cases(run, rng, n, maxdim):
         KF08 = "KF08-bins-dim-without-grouper-dim"
         if F.active(KF08) and bins is not None and not any(d in grouper_dims for d in dim_tuple) and probs:
             run.known(KF08, F.describe(KF08))
+            probs = []
+        KF11 = "KF11-shortcut-keeps-missing-labels"
+        if (F.active(KF11) and bins is None and not any(d in grouper_dims for d in dim_tuple) and probs
+                and any(any(x is None or x != x for x in g["labels"]) if isinstance(g["labels"], list) else False for g in desc["groupers"])):
+            run.known(KF11, F.describe(KF11))
             probs = []
         KF07 = "KF07-shortcut-several-groupers-1d-coords"
         if F.active(KF07) and len(grouper_dims) > 1 and not any(d in grouper_dims for d in dim_tuple):
